@@ -64,10 +64,37 @@ def strip_comments(src):
     return "".join(out)
 
 
-def grep_gate():
-    """no Admitted/Axiom/... anywhere; Variable/Hypothesis/Context only inside a Section"""
+def closure(roots):
+    """the .v files (relative to coq/) that the given files transitively Require from Helm"""
+    seen, todo = set(), list(roots)
+    while todo:
+        f = todo.pop()
+        if f in seen or not os.path.exists(os.path.join(COQ, f)):
+            continue
+        seen.add(f)
+        src = strip_comments(open(os.path.join(COQ, f), errors="replace").read())
+        for sent in re.split(r"\.(?:\s+|$)", src):
+            if "Require" not in sent:
+                continue
+            toks = sent.split()
+            for mod in toks:
+                if mod in ("From", "Helm", "Require", "Import", "Export", "Coq", "Local", "Global"):
+                    continue
+                if mod.startswith("Helm."):
+                    mod = mod[5:]
+                cand = mod.replace(".", "/") + ".v"
+                if os.path.exists(os.path.join(COQ, cand)):
+                    todo.append(cand)
+    return sorted(seen)
+
+
+def grep_gate(roots=None):
+    """no Admitted/Axiom/... ; Variable/Hypothesis/Context only inside a Section.
+    roots=None: every file under coq/; otherwise the dependency closure of roots."""
     bad = []
-    for p in sorted(glob.glob(os.path.join(COQ, "**", "*.v"), recursive=True)):
+    files = sorted(glob.glob(os.path.join(COQ, "**", "*.v"), recursive=True)) if roots is None else \
+        [os.path.join(COQ, f) for f in closure(roots)]
+    for p in files:
         src = strip_comments(open(p, errors="replace").read())
         nostr = re.sub(r'"(?:[^"]|"")*"', '""', src)
         for m in FORBIDDEN.finditer(nostr):
@@ -153,9 +180,13 @@ def parse_assumptions(out):
 
 def load_known():
     p = os.path.join(ROOT, "known_findings.json")
-    if not os.path.exists(p):
-        return {"findings": [], "fixed": []}
-    return json.load(open(p))
+    kf = json.load(open(p)) if os.path.exists(p) else {"findings": [], "fixed": []}
+    # per-property files (same format), so that separate checks can be maintained separately
+    for q in sorted(glob.glob(os.path.join(ROOT, "known_findings.d", "*.json"))):
+        x = json.load(open(q))
+        kf["findings"] = kf.get("findings", []) + x.get("findings", [])
+        kf["fixed"] = kf.get("fixed", []) + x.get("fixed", [])
+    return kf
 
 
 def write_json(path, obj):
@@ -231,7 +262,7 @@ def main(argv):
     props_file = cfg["props_file"]
     target = props_file[:-2] + ".vo"
     with Lock():
-        gate = grep_gate()
+        gate = grep_gate([cfg["props_file"]] + ([cfg["run_target"][:-1]] if cfg.get("run_target") else []))
         rc, out = build_harness()
         if rc != 0:
             rp = new_replay({"kind": "harness-build", "theorem": None,
